@@ -36,7 +36,7 @@ def check(ctx, src):
     rq = readerq.Reader(src)
     hr, rd = rq.hr, rq.rd
     ws = rd.toplevel_assign("_whitespace")
-    ctx.require(ws is not None and isinstance(ws, ast.Call) and dotted(ws.func) == "re.compile", "_whitespace regex not found")
+    ctx.need(ws is not None and isinstance(ws, ast.Call) and dotted(ws.func) == "re.compile", "_whitespace regex not found")
     pat = ws.args[0].value
     got = regex_class_chars(pat)
     ctx.check(got is not None and got[0] == set(" \t\n\r\f\v") and got[1] >= 1, "WS-CLASS", f"{RD}|_whitespace|class", f"whitespace regex {pat!r} matches {sorted(got[0]) if got else None}", RD, 0,
@@ -60,7 +60,7 @@ def check(ctx, src):
     # --- None propagation
     for ch, meth in ((";", "line_comment"), ("#_", "discard")):
         ent = rq.handlers.get(ch)
-        ctx.require(ent is not None and ent[0] == meth, f"handler for {ch!r} is not {meth}")
+        ctx.need(ent is not None and ent[0] == meth, f"handler for {ch!r} is not {meth}")
         f = ent[2]
         rets = [r for r in pyq.walk_no_nested(f) if isinstance(r, ast.Return)]
         ctx.check(rets and all(r.value is None or (isinstance(r.value, ast.Constant) and r.value.value is None) for r in rets) and isinstance(f.body[-1], ast.Return), "NONE-PROP", f"{HR}|{meth}|returns None",
